@@ -638,6 +638,8 @@ class Frame:
             if isinstance(base, (int, float, complex)) and e.attr in ("real", "imag"):
                 return getattr(complex(base), e.attr)
             if isinstance(base, Arr):
+                if e.attr in ("x", "y", "z") and len(base) > "xyz".index(e.attr):
+                    return base.d["xyz".index(e.attr)]
                 if e.attr == "size":
                     return len(base)
                 if e.attr == "shape":
@@ -831,6 +833,12 @@ class Frame:
                 if not isinstance(r, _Missing):
                     return r
             raise Unsupported(f"call of {au.src(c.func)}")
+        if isinstance(f, Sym) and f.path.split(".")[-1] == "Vec" and not kwargs:
+            # mouette.geometry.Vec: a numpy vector built from its coordinates (or from one sequence)
+            vals = list(args[0].d if isinstance(args[0], Arr) else args[0]) if len(args) == 1 and isinstance(args[0], (Arr, list, tuple)) else list(args)
+            if not all(_num(v) for v in vals):
+                raise Unsupported("Vec of non numbers")
+            return Arr(vals)
         if f in (float, int, complex, bool):
             return f(*args)
         if isinstance(f, tuple) and f[0] == "builtin":
